@@ -49,6 +49,9 @@
 (*               non-canonical default (1 for float, a tuple for List)     *)
 (*               is neither normalised nor a fixed point of dump o parse;  *)
 (*               parse_object normalises it.                               *)
+(*   noneOverDefault (dump; recognised by Trace_Types) an explicit None for *)
+(*               an argument that has a default is left out by dump        *)
+(*               (skip_none), so the re-parse fills in the default again.  *)
 (*   setListing  a set with two or more members is turned into a List or   *)
 (*               Tuple: the order is whatever Python lists the set in, so  *)
 (*               Union[Tuple[int,str],Set[str]] may read its own result    *)
@@ -604,10 +607,10 @@ Unbag(y) == CASE y.k = "bag" -> ListV([n \in 1..Len(AsSeq(y)) |-> Unbag(AsSeq(y)
 (***************************************************************************)
 \* Ref is what C02 says: results conform, conforming values are accepted and are their own normal form,
 \* nothing depends on the order of Union members
-RefLaws(t, x) ==
+RefLawsCore(t, x) ==
   /\ Acc(t, x) => (Res(t, x) # {} /\ \A r \in Res(t, x) : Conforms(t, r))
   /\ Conforms(t, x) => (Acc(t, x) /\ x \in Res(t, x))
-  /\ Accepts(t, x) = (TopResults(t, x) # {})
+RefLaws(t, x) == RefLawsCore(t, x) /\ Accepts(t, x) = (TopResults(t, x) # {})
 RefPermInvariant(t, x) == \A p \in AllPerms(t) : Accepts(p, x) = Accepts(t, x) /\ TopResults(p, x) = TopResults(t, x)
 
 \* C02 for the algorithm: outside the named deviations it accepts exactly what Ref accepts and returns one of
